@@ -51,6 +51,6 @@ mod __verif_kani {
     engine_case!(c20_bmi2_engine_len70, 70, bmi2::build_index_simd);
     //@ kind=B props=C20 tier=thorough bound=text_len=70 fn=dsv::simd::build_index_simd : runtime dispatcher with both feature flags nondeterministic: same index as the scalar builder for all 70-byte texts
     engine_case!(c20_dispatch_len70, 70, build_index_simd);
-    //@ kind=B props=C20 tier=thorough bound=text_len=5 fn=dsv::simd::build_index_simd : tail-only input (shorter than one chunk), dispatcher with nondeterministic flags
+    //@ kind=B props=C20 bound=text_len=5 fn=dsv::simd::build_index_simd : tail-only input (shorter than one chunk), dispatcher with nondeterministic flags
     engine_case!(c20_dispatch_len5, 5, build_index_simd);
 }
